@@ -20,16 +20,20 @@ func (c *connLimiter) update(maxConn int32) {
 
 func (c *connLimiter) take() bool {
 	x := atomic.AddInt32(&c.tmp, 1)
+	verifGate("conn.take.added")
 	if x <= atomic.LoadInt32(&c.lim) {
+		verifGate("conn.take.checked")
 		atomic.AddInt32(&c.now, 1)
 		return true
 	}
+	verifGate("conn.take.checked")
 	atomic.AddInt32(&c.tmp, -1)
 	return false
 }
 
 func (c *connLimiter) release() {
 	atomic.AddInt32(&c.now, -1)
+	verifGate("conn.release.mid")
 	atomic.AddInt32(&c.tmp, -1)
 }
 
